@@ -74,8 +74,38 @@ def exc_signature(e):
     return "%s@%s" % (type(e).__name__, site)
 
 
-class Session:
+class _SeededUUID:
+    """Stand-in for the ``uuid`` module inside dask_expr._shuffle: DiskShuffle
+    draws uuid1() per materialisation; a process-local counter keeps keys unique
+    and makes event logs replayable."""
+
+    class _U:
+        def __init__(self, n):
+            self.hex = "%032x" % n
+
     def __init__(self):
+        self.n = 0
+
+    def uuid1(self):
+        self.n += 1
+        return self._U(self.n)
+
+    def uuid4(self):
+        return self.uuid1()
+
+
+def install_uuid_shim():
+    import dask_expr._shuffle as sh
+
+    if not isinstance(sh.uuid, _SeededUUID):
+        sh.uuid = _SeededUUID()
+    return sh.uuid
+
+
+class Session:
+    def __init__(self, uuid_shim=True):
+        if uuid_shim:
+            install_uuid_shim()
         root = os.environ.get("VERIF_SCRATCH") or tempfile.gettempdir()
         self.scratch = tempfile.mkdtemp(prefix="s-", dir=root)
         self._cfg = dask.config.set({"temporary_directory": self.scratch})
